@@ -359,8 +359,14 @@ class IntegerSequence(SequenceBase):
                 self.i_step = None
                 self.p_stop = self.p_start
             else:
+                span = int(self.p_stop - self.p_start)
+                if span % (reps - 1):
+                    raise SequenceParsingError(
+                        f'Invalid integer recurrence: {expression}'
+                        f' ({reps} points do not divide the range evenly)'
+                    )
                 self.i_step = IntegerInterval.from_integer(
-                    int(self.p_stop - self.p_start) / (reps - 1)
+                    span // (reps - 1)
                 )
         else:
             # This means that format_num == 4.
